@@ -351,13 +351,27 @@ class Reference:
         for s, g in spec.states.items():
             if g[0] != "disc" and g[3] < 2:
                 return False, "single_node_state_grid"
+        why = self._space_checks(require_feasible)
+        return (why == ""), why
+
+    def leaves_space(self):
+        """Do transitions lead from an admissible state (under a feasible choice) into a state
+        that the filters exclude in the next period?  (clause (iii) alone)"""
+        if self.V is None:
+            self.solve()
+        return self._space_checks(False) == "transition_into_excluded_state"
+
+    def _space_checks(self, require_feasible):
+        spec = self.spec
+        T = spec.n_periods
+        sp_states, sp_choices = spec.restricted()
         order, ns = self.order, len(self.order)
         lays = [self.layout(t) for t in range(T)]
         # (v) no empty space
         for t in range(T):
             keep = lays[t][4]
             if keep is not None and sp_states and not keep.any():
-                return False, "empty_space"
+                return "empty_space"
 
         def in_space_mask(t):
             """mask over the full state-choice product: state is in the period-t space"""
@@ -383,7 +397,7 @@ class Reference:
                 has = (f & ins).any(axis=ax) if nc else (f & ins)
                 st_in = ins.any(axis=ax) if nc else ins
                 if (st_in & ~has).any():
-                    return False, "state_without_feasible_choice"
+                    return "state_without_feasible_choice"
             if t == T - 1 or not sp_states:
                 continue
             # (iii) transitions from feasible in-space state-choices stay in the space
@@ -407,5 +421,5 @@ class Reference:
                     full[s] = np.full(shape, lab)
                 inspace = keep_next[tuple(full[s] for s in sp_states)]
                 if (ff & pos & ~inspace).any():
-                    return False, "transition_into_excluded_state"
-        return True, ""
+                    return "transition_into_excluded_state"
+        return ""
